@@ -37,6 +37,11 @@ abbrev unsetRootLocal : String := "own"
 abbrev unsetRootPool : String := "shared"
 abbrev rootVmTypes : List String := ["vms", "nets/vms"]
 
+/-- `QCOW2ImageTransfer.compare_chain`: object types that carry a vm state file, and the file suffixes -/
+abbrev chainVmTypes : List String := ["vms", "nets/vms"]
+abbrev chainImageSuffix : String := ".qcow2"
+abbrev chainStateSuffix : String := ".state"
+
 /-- the documented scope names (default of `pool_scope` in tp_folder/configs/groups-base.cfg) -/
 abbrev allScopes : List String := ["own", "swarm", "cluster", "shared"]
 
